@@ -971,6 +971,14 @@ def r7(ctx):
         if isinstance(x, ast.Call) and call_name(x) in ("np.isin", "np.in1d") and len(x.args) >= 2 and T(x.args[0]) in (ids, f"{ids}.flatten()", f"{ids}.ravel()"):
             inv = kwargs(x).get("invert")
             return (x.args[1], not (inv is not None and T(inv) == "True"))
+        # isin(ids, S) | (ids == SENTINEL): membership in S plus the sentinel
+        if isinstance(x, ast.BinOp) and isinstance(x.op, ast.BitOr):
+            sides = [inline(y, env, depth=1) if isinstance(y, ast.Name) else y for y in (x.left, x.right)]
+            isin = [y for y in sides if elem(y) is not None and elem(y)[1] is True]
+            ctl = [y for y in sides if isinstance(y, ast.Compare) and len(y.ops) == 1 and isinstance(y.ops[0], ast.Eq)
+                   and {T(y.left), T(y.comparators[0])} in ({ids, "CONTROL_SENTINEL_VALUE"}, {ids, "-1"})]
+            if len(isin) == 1 and len(ctl) == 1:
+                return (parse_expr(f"np.concatenate([{U(elem(isin[0])[0])}, [CONTROL_SENTINEL_VALUE]])"), True)
         return None
 
     def rows(x):
